@@ -161,6 +161,14 @@ func (f *Fetcher) Run(ctx context.Context, fn func(EntryBatch)) error {
 	}
 	wg.Wait()
 
+	// Workers may have returned because ctx was canceled, without seeing the
+	// ranges channel closed. Make sure the range generator has terminated as
+	// well before returning: in continuous mode it updates f.sth and
+	// f.opts.EndIndex, which callers read once Run is over.
+	cancel()
+	for range ranges {
+	}
+
 	klog.V(1).Infof("%s: Fetcher terminated", f.uri)
 	return nil
 }
